@@ -71,8 +71,12 @@ var c03Locals = map[string]net.Addr{
 // c03Hello: a synthetic ClientHello. kind "" supports ECDSA P-256 only, "ed25519" adds Ed25519,
 // "rsa" supports RSA certificates only (TLS 1.2 and 1.3), "tls12" is the default restricted to TLS 1.2.
 func c03Hello(sni, local, kind string) *tls.ClientHelloInfo {
+	var conn net.Conn // local "none": a ClientHelloInfo without a connection (not made by crypto/tls)
+	if local != "none" {
+		conn = fakeConn{local: c03Locals[local], remote: &net.TCPAddr{IP: net.ParseIP("192.0.2.7"), Port: 5555}}
+	}
 	h := &tls.ClientHelloInfo{ServerName: sni,
-		Conn:              fakeConn{local: c03Locals[local], remote: &net.TCPAddr{IP: net.ParseIP("192.0.2.7"), Port: 5555}},
+		Conn:              conn,
 		SupportedVersions: []uint16{tls.VersionTLS13, tls.VersionTLS12},
 		SignatureSchemes:  []tls.SignatureScheme{tls.ECDSAWithP256AndSHA256},
 		CipherSuites:      []uint16{tls.TLS_AES_128_GCM_SHA256, tls.TLS_ECDHE_ECDSA_WITH_AES_128_GCM_SHA256},
@@ -577,7 +581,8 @@ func (env *c03Env) lookupCase(w *emit.Writer, in c03In, class string) error {
 	attrs := map[string]at{}
 	storedSup := map[string]bool{}
 	var err, obsErr error
-	var called bool
+	var called, hasConn bool
+	var panicked string
 	var ip, implIP, sni string
 	var idnaName string
 	var idnaOK bool
@@ -610,12 +615,24 @@ func (env *c03Env) lookupCase(w *emit.Writer, in c03In, class string) error {
 		idnaName, idnaOK = c03IDNA(hello.ServerName)
 		implName, implNameErr = env.cfg.VerifNameFromClientHello(hello)
 		implIP = certmagic.VerifLocalIPFromConn(hello.Conn)
-		ip = implIP
-		if ta, ok := hello.Conn.LocalAddr().(*net.TCPAddr); ok && ta != nil && ta.IP != nil {
-			ip = ta.IP.String()
+		ip = ""
+		hasConn = hello.Conn != nil
+		if hasConn {
+			ip = implIP
+			if ta, ok := hello.Conn.LocalAddr().(*net.TCPAddr); ok && ta != nil && ta.IP != nil {
+				ip = ta.IP.String()
+			}
 		}
-		// the call
-		cert, err = env.cfg.GetCertificate(hello)
+		// the call (a panic is an observation too: neither an error nor a certificate)
+		func() {
+			defer func() {
+				if r := recover(); r != nil {
+					panicked = fmt.Sprint(r)
+					cert, err = nil, nil
+				}
+			}()
+			cert, err = env.cfg.GetCertificate(hello)
+		}()
 		return cert, err
 	}
 	var served []byte
@@ -664,7 +681,7 @@ func (env *c03Env) lookupCase(w *emit.Writer, in c03In, class string) error {
 			}
 		}
 	}
-	e.Str(in.Default).Str(in.Fallback).Str(sni).Str(ip)
+	e.Str(in.Default).Str(in.Fallback).Str(sni).Str(ip).Bool(hasConn)
 	e.Int(c03Policies[in.Policy])
 	if idnaOK {
 		e.Bool(true).Str(idnaName)
@@ -698,6 +715,10 @@ func (env *c03Env) lookupCase(w *emit.Writer, in c03In, class string) error {
 	case err != nil:
 		e.Int(0)
 		obs["error"] = err.Error()
+	case panicked != "":
+		e.Int(2)
+		res = "PANIC"
+		obs["panic"] = panicked
 	case cert == nil || len(cert.Certificate) == 0:
 		e.Int(2)
 		res = "EMPTY-CERT-NIL-ERROR"
@@ -733,6 +754,9 @@ func (env *c03Env) lookupCase(w *emit.Writer, in c03In, class string) error {
 		e.Int(1).Str(id).Bool(complete)
 		res = "cert"
 		obs["cert"], obs["complete"] = id, complete
+	}
+	if !hasConn {
+		w.Hist("hello_without_conn")
 	}
 	if in.RealTLS && (err != nil || cert == nil || len(cert.Certificate) == 0) && herr == nil {
 		// the handshake succeeded although GetCertificate gave nothing
@@ -859,8 +883,10 @@ func (env *c03Env) nameCase(w *emit.Writer, sni, dflt, local string) {
 	hello := c03Hello(sni, local, "")
 	o, oerr := env.cfg.VerifNameFromClientHello(hello)
 	ip := ""
-	if ta, ok := hello.Conn.LocalAddr().(*net.TCPAddr); ok && ta != nil && ta.IP != nil {
-		ip = ta.IP.String()
+	if hello.Conn != nil {
+		if ta, ok := hello.Conn.LocalAddr().(*net.TCPAddr); ok && ta != nil && ta.IP != nil {
+			ip = ta.IP.String()
+		}
 	}
 	n, ok := c03IDNA(sni)
 	e := (&emit.Enc{}).Int(4)
@@ -1010,6 +1036,10 @@ func runC03(tier string, seed int64, outdir string, replay string) error {
 		{"almost-full-loaded-maintenance-fails", c03In{Certs: []string{"fb"}, Cap: 1, Fallback: "fb.y", SNI: "a.x", Local: "127.0.0.1", Storage: "expired-a"}},
 		{"almost-full-loaded-maintenance-fails", c03In{Certs: []string{"fb"}, Cap: 1, SNI: "a.x", Local: "127.0.0.1", Storage: "expired-a"}},
 		{"almost-full-loaded-maintenance-fails", c03In{Certs: []string{"w1", "fb", "df"}, Cap: 3, Fallback: "fb.y", SNI: "zz.x", Local: "127.0.0.1", Storage: "wild-b+expired-zz"}},
+		{"nil-conn-no-certificate", c03In{Certs: []string{"e1"}, Cap: 0, SNI: "nomatch.x", Local: "none", Storage: "empty"}},
+		{"nil-conn-no-certificate", c03In{Certs: nil, Cap: 0, SNI: "", Local: "none", Storage: "empty"}},
+		{"nil-conn-no-certificate", c03In{Certs: []string{"i1", "fb"}, Cap: 0, Default: "df.y", Fallback: "fb.y", SNI: "", Local: "none", Storage: "empty"}},
+		{"nil-conn-no-certificate", c03In{Certs: []string{"fb"}, Cap: 1, Fallback: "fb.y", SNI: "a!.x", Local: "none", Storage: "valid-a"}},
 		{"corpus", c03In{Certs: []string{"fb"}, Cap: 1, Fallback: "fb.y", SNI: "a.x", Local: "127.0.0.1", Storage: "valid-a"}},
 		{"corpus", c03In{Certs: []string{"e2", "e3", "e1"}, Cap: 0, SNI: "A.x ", Local: "127.0.0.1", Storage: "empty"}},
 		{"corpus", c03In{Certs: []string{"w1", "ww", "m1"}, Cap: 0, SNI: "q.b.x", Local: "127.0.0.1", Storage: "empty"}},
@@ -1073,7 +1103,7 @@ func runC03(tier string, seed int64, outdir string, replay string) error {
 	}
 	for _, q := range append(append([]string{}, c03Queries...), "\u00a0a.x\u2003", " BÜCHER.x ", "faß.x", "Σς.x", "a\u200db.x", "xn--a.x", "a..x ", "\t", "-a.x", "a-.x", "ab--c.x") {
 		for _, d := range []string{"", "df.y", " DF.Y ", "Ünï.y "} {
-			for _, l := range []string{"127.0.0.1", "fe80::1", "10.0.0.1/4"} {
+			for _, l := range []string{"127.0.0.1", "fe80::1", "10.0.0.1/4", "none"} {
 				if strings.TrimSpace(q) != "" && l != "127.0.0.1" {
 					continue
 				}
@@ -1215,7 +1245,7 @@ func runC03(tier string, seed int64, outdir string, replay string) error {
 	if tier == "thorough" {
 		nCustom = 25000
 	}
-	allLocals := []string{"127.0.0.1", "10.0.0.1", "fe80::1", "10.0.0.1/4", "::1"}
+	allLocals := []string{"127.0.0.1", "10.0.0.1", "fe80::1", "10.0.0.1/4", "::1", "none"}
 	fullPool := append(append([]c03Cert{}, c03PoolDef...), c03ExtraDef...)
 	for i := 0; i < nCustom; i++ {
 		perm := r.Perm(len(fullPool))
